@@ -44,6 +44,13 @@ def cases(tier, seed):
         for o2 in OUTG[:5]:
             add(AND(MENU[0], o, o2)); add(AND(o, MENU[2], o2))
             add(AND(OR(o, o2), OUTG[0], gb('fail'))); add(AND(OR(o, o2), gc('d', A('a')), o2))
+    # print_list with several arguments, and with a list that continues through two bound tail variables
+    W_ = V('W')
+    for a in MENU[:3]:
+        add(AND(a, gb('print_list', A('header'), L(X, A('k')), L(A('c')))))
+        add(AND(a, gb('print_list', L(X), L(A('c')), A('end'))))
+        add(AND(a, U(Z, L(A('c'), tail=W_)), U(W_, L(A('d'), X)), gb('print_list', L(A('a'), A('b'), tail=Z))))
+        add(AND(U(Z, L(A('c'), tail=W_)), a, U(W_, L(X)), gb('print_list', L(A('a'), tail=Z))))
     # printing a body-local variable that first occurs at different places in the alternatives of a disjunction
     for g1 in (U(Y, I(1)), gc('q', Y)):
         for g3 in (U(Y, I(2)), gc('q', Y)):
